@@ -152,3 +152,42 @@ def enc_component(max_len=512):
                     actual_len=draw(actual_len_for(len(blob))), enc=True)
 
     return _c()
+
+
+# ---------------------------------------------------------------------------- configurations
+# A configuration case is a list of (key, value_id | None, content | None):
+#   content bytes -> set value;  content None -> delete value;  value_id None -> delete whole key
+def config_entries(max_entries=40, max_content=254, naming=True):
+    @st.composite
+    def _cfg(draw):
+        n = draw(st.integers(0, max_entries))
+        keys_pool = draw(st.lists(st.one_of(st.integers(0, 0xFFFF), st.sampled_from([0x0620, 0x0202, 0x0101, 0xFFFF, 0])), min_size=1, max_size=max(1, n // 3 + 1), unique=True))
+        delkeys = set()
+        used = set()
+        out = []
+        for _ in range(n):
+            k = draw(st.sampled_from(keys_pool))
+            if k in delkeys:
+                continue
+            kind = draw(st.integers(0, 9))
+            if kind == 0 and not any(e[0] == k for e in out):
+                delkeys.add(k)
+                out.append((k, None, None))
+                continue
+            v = draw(st.one_of(st.integers(0, 0xFE), st.sampled_from([0, 1, 0xFE, 0x82])))
+            if (k, v) in used:
+                continue
+            used.add((k, v))
+            if kind == 1:
+                out.append((k, v, None))
+            else:
+                ln = draw(st.one_of(st.integers(0, 8), st.integers(0, max_content), st.sampled_from([0, 1, 109, 110, 111, 112, 113, 254])))
+                ln = min(ln, max_content)
+                out.append((k, v, draw(st.binary(min_size=ln, max_size=ln))))
+        return out
+
+    return _cfg()
+
+
+def config_to_dict(entries):
+    return {(k, v): c for k, v, c in entries}
